@@ -610,6 +610,11 @@ func editStream(r *hx.Rng) []byte {
 			if r.Bool() {
 				b.WriteString("\x1b[200~" + "SELECT 3;\rSELECT 4;\r" + "\x1b[201~")
 			}
+			if r.Bool() {
+				// control characters on the SECOND and THIRD line of one paste: the whole paste is read
+				// verbatim, not only its first line (ninth seeded round)
+				b.WriteString("\x1b[200~" + "SELECT 5;\rSELECT" + edPick(r, edInPaste) + "6;\rINSERT INTO t VALUES ('a" + edPick(r, edInPaste) + "b');\r" + "\x1b[201~")
+			}
 			submitted++
 		default:
 			k := r.Range(1, 3)
@@ -649,6 +654,9 @@ func editCases(cfg *config) []consoleCase {
 		"a\x1b[200~SELECT 1;\rSELECT 2;\r\x1b[201~SELECT 3;\r", "SELECT 1;\r\rx\x10\x0e;\r", "\x1b[3~SELECT\x1bOP 1;\r",
 		"SELECT 1;\x03\r", "\x04", "SELECT 1\x04;\r", "SELECT 1X;\x02\x02\x04\r", "\xc3", "\xffSELECT 1;\r", "SELECT '\xe2\x82';\r",
 		"", "\r", "\x10\x0e\r", "  a  b  \x17\x17\x17;\r", " ab\x17;\r", "a b\x1b[1;3D\x1b[1;3D\x1b[1;3Dc;\r",
+		// control characters on the second and third line of ONE paste (the paste is read verbatim to its end)
+		"\x1b[200~SELECT 1;\rSELECT\t2;\rINSERT INTO t VALUES ('a\tb');\r\x1b[201~SELECT 3;\r",
+		"\x1b[200~USE d;\rSELECT 'x\x01y', 'p\x7fq';\rSELECT\x1b[A 4;\r\x1b[201~",
 	} {
 		add(s)
 	}
